@@ -902,7 +902,7 @@ def ord_field_meta(ctx, field, name):
 DISCR_POOL = [0, 1, 2, 3, 5, 100, 127, 128, 200, 255, 256, 32767, 32768, 65535, 2147483647, 2147483648,
               4294967295, ISIZE_MAX, ISIZE_MAX + 1, 2 ** 64, I128_MAX - 1, I128_MAX,
               -1, -2, -128, -129, -32768, -32769, -2147483648, -2147483649, ISIZE_MIN, ISIZE_MIN - 1, I128_MIN + 1, I128_MIN]
-DISCR_BAD = [('discr_nonlit', 'FOO'), ('discr_nonlit', 'a::B'), ('discr_nonlit', '1 + 1'), ('discr_nonlit', '-(1)'),
+DISCR_BAD = [('discr_op', '!1'), ('discr_op', '!0'), ('discr_op', '*1'), ('discr_nonlit', 'FOO'), ('discr_nonlit', 'a::B'), ('discr_nonlit', '1 + 1'), ('discr_nonlit', '-(1)'),
              ('discr_nonlit', '- -1'), ('discr_nonlit', '(1)'), ('discr_nonlit', 'foo(1)'), ('discr_nonlit', '1 as u8'),
              ('discr_nonlit', '-x'), ('discr_nonlit', 'A | B'), ('discr_op', '!0'), ('discr_op', '*x'), ('discr_op', '!FOO'),
              ('discr_notint', '"x"'), ('discr_notint', '1.0'), ('discr_notint', 'true'), ('discr_notint', '-1.5'),
@@ -1789,11 +1789,11 @@ def apply_fault(ctx, where, metas, educed):
     if not ctx.want_fault or ctx.fault is not None or r.random() > 0.25:
         return metas
     metas = [m for m in metas if m is not None]
-    kinds = ['unknown_trait', 'unknown_param', 'dup_param', 'bad_form']
+    kinds = ['unknown_trait', 'unknown_param', 'dup_param', 'bad_form', 'bound_nonlit']
     if where == 'type':
         kinds += ['dup_trait']
     else:
-        kinds += ['trait_not_used', 'dup_trait_item']
+        kinds += ['trait_not_used', 'dup_trait_item', 'dup_trait_item_empty']
     if where == 'variant':
         kinds += ['variant_flag', 'variant_bound']
     k = pick(r, kinds)
@@ -1811,6 +1811,11 @@ def apply_fault(ctx, where, metas, educed):
         metas.append(t)
     elif k == 'dup_trait_item':
         metas = [m for m in metas if not m.startswith(t)] + ['%s(ignore)' % t, '%s = false' % t]
+    elif k == 'dup_trait_item_empty':
+        # the same trait twice on one item, each in a form that is accepted there on its own
+        metas = [m for m in metas if not m.startswith(t)] + ['%s()' % t, pick(r, ['%s()' % t, '%s( )' % t])]
+    elif k == 'bound_nonlit':
+        metas = [m for m in metas if not m.startswith(t)] + [pick(r, ['%s(bound = x)', '%s(bound = a::b)', '%s(bound = 1)', '%s(bound = -1)', '%s(bound = f(1))']) % t]
     elif k == 'trait_not_used':
         others = [x for x in ALL_TRAITS if x not in ctx.traits]
         if not others:
@@ -1867,6 +1872,10 @@ def gen_case(seed, spseed, modelled, want_fault=False, kinds=('struct', 'enum', 
     name = pick(rng, ['S', 'Foo', 'r#Type', 'E1'])
     inp = Input(ctx.kind, name, generics=g)
     inp.attrs = assemble(ctx, type_metas, extra_attrs=True)
+    if want_fault and ctx.fault is None and rng.random() < 0.01:
+        # nothing educed at all: `derive(Educe)` without any `#[educe(...)]` (or with an empty one)
+        inp.attrs = pick(rng, [[], [educe('')], [educe(' ')], [Attr('doc', 'nv', '" d"')], [educe(''), educe('')]])
+        ctx.fault = 'nothing_educed@type'
     if ctx.kind == 'struct':
         inp.fkind = shape_hook(ctx, 'fkind', pick(rng, ['named', 'unnamed', 'unnamed', 'named', 'unit']))
         n = 0 if inp.fkind == 'unit' else shape_hook(ctx, 'nfields', pick(rng, [0, 1, 1, 2, 2, 3, 4, 5]))
